@@ -182,7 +182,8 @@ def extendFunctionEnv (f : FuncVal) (args : List Obj) : M (Except Obj Nat) := do
   let same := sameFunction cf f
   let parent := if same then cur else f.env
   let pf ← getFrame parent
-  let nenv ← newFrame { outer := some parent, cacheKey := f.key, depth := pf.depth + 1, function := some f }
+  let nenv ← newFrame { outer := some parent, cacheKey := f.key, depth := pf.depth + 1, function := some f,
+                        localFunc := same && cf.localFunc }
   -- the variadic expansion looks through a reference to an outer array
   let args ← if f.variadic then
       match args.getLast? with
@@ -628,7 +629,11 @@ def applyFunction : Nat → Obj → List Obj → M Obj
   | fuel + 1, fn, args => do
     match fn with
     | .func f =>
-      if let some (v, output) ← cacheGet f.key args then
+      -- a recursive call from a frame that holds a local function (itself or, through recursion, its callers): the
+      -- callee's scope chain runs through these frames: neither looked up nor stored (repo fix e958f06)
+      let cf ← getFrame (← curEnv)
+      let skip := cf.localFunc && sameFunction cf f
+      if let some (v, output) ← (if skip then pure none else cacheGet f.key args) then
         if !output.isEmpty then writeOut output
         return v
       match ← extendFunctionEnv f args with
@@ -640,7 +645,7 @@ def applyFunction : Nat → Obj → List Obj → M Obj
         let before := 0
         let res ← eval fuel f.body
         let fr ← getFrame nenv
-        let after := fr.getMiss
+        let after := if skip then fr.getMiss + 1 else fr.getMiss
         let cantCache := fr.cantCache
         let st ← get
         let (output, outs) := match st.outs with
